@@ -299,6 +299,27 @@ def render_prefix(ctx):
     ctx.check(bool(body) and body[0].value.value == "render_body" and "self.module.render_body" in src(ti), "body-name", db.where(ti), "body callable name disagrees between codegen and Template", "render_body")
 
 
+@rule("C08.cmd-source-bytes", min_instances=2, props=["C01", "C18"])
+def cmd_source_bytes(ctx):
+    """mako-render hands a template file to Template by name (or as bytes): it never reads it through a text-mode stream, which would decode it with the locale's codec, ignore the coding comment / BOM and translate CR LF"""
+    db = ctx.db
+    n = 0
+    for q, fn in db.functions_in("cmd"):
+        for c in walk_func(fn):
+            if isinstance(c, ast.Call) and dotted(c.func) in ("open", "io.open", "codecs.open"):
+                mode = c.args[1] if len(c.args) > 1 else next((k.value for k in c.keywords if k.arg == "mode"), None)
+                modes = [a_.value for a_ in ([mode] if isinstance(mode, ast.Constant) else [mode.body, mode.orelse] if isinstance(mode, ast.IfExp) else []) if isinstance(a_, ast.Constant)]
+                n += 1
+                reading_text = mode is None or (modes and any(isinstance(m_, str) and "b" not in m_ and not any(x_ in m_ for x_ in "wax") for m_ in modes))
+                ctx.check(not reading_text, "open@%s:%s" % (q.split(".", 1)[-1], src(c.args[0]) if c.args else "?"), db.where(c), "%s opens `%s` for reading in text mode: the template source is decoded outside of Mako (coding comment and BOM ignored, \\r\\n turned into \\n) before the lexer sees it" % (q, src(c.args[0]) if c.args else "?"), "not a text-mode read")
+    cm = db.func("cmd.cmdline")
+    tc = [c for f_ in db.with_helpers(cm) for c in walk_func(f_) if isinstance(c, ast.Call) and dotted(c.func) == "Template"]
+    ctx.require(tc, "cmd.cmdline does not build a Template (anchor)")
+    byname = [c for c in tc if any(k.arg == "filename" for k in c.keywords)]
+    ctx.check(bool(byname), "file-by-name", db.where(tc[0]), "a template file is not handed to Template by name (Template(filename=...)): Mako's own reading and decoding of the file is bypassed", "Template(filename=...) for files")
+    ctx.require(n >= 1, "cmd.py: no open() call found (the output file is written through open())")
+
+
 @rule("C08.one-pipeline", min_instances=8, props=["C18"])
 def one_pipeline(ctx):
     """string, file and module-directory templates are compiled by the same _compile with identical wiring; all render entry points funnel into runtime._render / _render_context; the lookup mirrors Template's options"""
